@@ -23,7 +23,7 @@ Shown(e, i, v) == /\ e.idx = i /\ e.val = v
 TInit == /\ t \in 1 .. NT /\ l = 2
          /\ LET e == Traces[t][1] IN
               /\ tab = e.tab /\ shape = e.shape /\ mode = e.mode /\ req = 0 - 1
-              /\ e.mode \in {"echo", "none", "clamp", "raise"} /\ e.cap = Cap
+              /\ e.mode \in {"echo", "none", "clamp", "raise", "crash"} /\ e.cap = Cap
               /\ e.tab \in TableNames
               /\ idx = e.idx /\ hw = e.hw /\ val = Tab(e.tab)[e.idx] /\ last = "ok"
               /\ Shown(e, idx, val)
